@@ -40,35 +40,13 @@ Definition admissible (s : str) (iris : list str) : Prop :=
 Definition is_longest (s : str) (iris : list str) : Prop :=
   admissible s iris /\ forall s', admissible s' iris -> (List.length s' <= List.length s)%nat.
 
-(** ** the acceptance rule as implemented, written declaratively.
-
-    The code does not test "is a bare scheme"; it withholds a candidate that
-    starts with [http] and has fewer than nine characters. *)
-Definition http_short (s : str) : Prop := prefix (Str "http") s /\ pylen s < 9.
-
-Definition admissible_impl (s : str) (iris : list str) : Prop :=
-  common_prefix s iris /\ ends_with_sep s /\ 3 <= pylen s /\ ~ http_short s.
-
-Definition is_longest_impl (s : str) (iris : list str) : Prop :=
-  admissible_impl s iris /\ forall s', admissible_impl s' iris -> (List.length s' <= List.length s)%nat.
-
-(** ** the proved domain.
-
-    [well_formed_ids]: the class has at least one instance and no instance id
-    starts with ['%'] (no IRI and no blank-node label does).
-    [rules_coincide]: on every separator-terminated common prefix of at least
-    three characters, "is a bare scheme" and "starts with http and is shorter
-    than nine characters" say the same.  Every list of [http://x...] /
-    [https://x...] IRIs is inside (lemma [http_family_in_dom] in the proofs);
-    [urn:], [ftp://], [file://] ... namespaces and authority-less [http:a/]
-    IRIs can be outside. *)
+(** ** the domain of the stem theorems: the class has at least one instance
+    and no instance id starts with ['%'] (no IRI and no blank-node label
+    does; the code uses that character as its "no instance yet" marker). *)
 Definition well_formed_ids (iris : list str) : Prop :=
   iris <> [] /\ forall i, In i iris -> ~ prefix (Str "%") i.
 
-Definition rules_coincide (iris : list str) : Prop :=
-  forall s, common_prefix s iris -> ends_with_sep s -> 3 <= pylen s -> (bare_scheme s <-> http_short s).
-
-Definition C17_dom (iris : list str) : Prop := well_formed_ids iris /\ rules_coincide iris.
+Definition C17_dom (iris : list str) : Prop := well_formed_ids iris.
 
 (** *** the same, computable *)
 Definition is_sepb (c : ascii) : bool :=
@@ -87,20 +65,10 @@ Definition bare_schemeb (s : str) : bool :=
   | _ => str_eqb rest (Str ":") || str_eqb rest (Str ":/") || str_eqb rest (Str "://")
   end.
 
-Definition http_shortb (s : str) : bool := prefixb (Str "http") s && (pylen s <? 9).
-
-Definition ends_with_sepb (s : str) : bool :=
-  match rev s with c :: _ => is_sepb c | [] => false end.
-
-Definition prefixes (s : str) : list str := map (fun n => firstn n s) (seq 0 (S (List.length s))).
-
 Definition C17_domb (iris : list str) : bool :=
   match iris with
   | [] => false
-  | i0 :: _ =>
-    forallb (fun i => negb (prefixb (Str "%") i)) iris &&
-    forallb (fun s => negb (forallb (prefixb s) iris && ends_with_sepb s && (3 <=? pylen s))
-                      || Bool.eqb (bare_schemeb s) (http_shortb s)) (prefixes i0)
+  | _ :: _ => forallb (fun i => negb (prefixb (Str "%") i)) iris
   end.
 
 (** ** examples *)
